@@ -89,6 +89,8 @@ class Interp:
         for spec in o.get('resources', []):
             cls = Capacities if spec['kind'] == 'cap' else Resources
             self.resources[spec['name']] = cls(**spec['levels'])
+        # condition objects that are built once and used by several steps (['named', i])
+        self.named = [self.cond(e) for e in o.get('conds', [])]
         self.pipes = []
         for spec in o.get('pipes', []):
             self.pipes.append(UnboundedPipe() if spec.get('unbounded') else Pipe(num(spec['thr'])))
@@ -171,6 +173,8 @@ class Interp:
         k = e[0]
         if k == 'flag':
             return self.flags[e[1]]
+        if k == 'named':
+            return self.named[e[1]]
         if k == 'not':
             return ~self.cond(e[1])
         if k == 'and':
@@ -592,6 +596,9 @@ class Interp:
                         task, state = self.spawn(sc, fs['child'], fs['ref'])
                         ev(name, fidx, 'spawned' if task is not None else 'refused',
                            (fs['child']['name'], state))
+                    elif fs['op'] == 'raise':
+                        # clean-up code that fails (also while the activity is being closed)
+                        raise self.new_exc(fs['eid'], fs.get('cls', 'E'))
                     elif fs['op'] == 'cancel':
                         t = self.tasks.get(fs['ref'])
                         if t is not None:
